@@ -28,13 +28,14 @@ OP_MAP = {
     "*": "__mul__",
     "+": "__add__",
     "-": "__sub__",
-    "/": "__div__",
+    "/": "__truediv__",
     "^": "__pow__",
     ">": "__gt__",
     "<": "__lt__",
     "<=": "__le__",
     ">=": "__ge__",
     "!=": "__ne__",
+    "<>": "__ne__",
     "==": "__eq__",
     "min": "fmin",
     "max": "fmax",
